@@ -432,3 +432,14 @@ more("C08",
 more("C09",
      text="Inputs are delivered as separate files and as several HDUs of one multi-extension file (same path listed per HDU, mixed); undefined pixels are encoded as NaN or as a declared "
           "blank value (0, 0.0, -999, 2^100; SimpleFitsCollection(blankval) and `toasty view --blankval / --hdu-index`).")
+more("C07",
+     text="Footprint and layer cases hand WcsSampler the WCS in every form a caller legally can (no grid size recorded, the right one, a stale smaller or larger one - via pixel_shape / "
+          "array_shape, header NAXISn, to_header() round trip, slicing); the image is the DATA array throughout.",
+     note="ImageBounds.CoversEveryArrayPixel (L = data axis length) checked by TLC; a stale recorded size differs by 1..L/3 px per axis.")
+more("C11",
+     text="Every answer returned during a battery of calls is held and compared with TLC's table again after the battery's last call (answers belong to the caller), and the requests "
+          "are the caller's too: read-only arrays and views, lon and lat as one object or overlapping views.",
+     note="A sampler that modifies a writeable request while still answering correctly is reported as drift.")
+more("C16",
+     text="The cases are given pixel scales from 1e-2 to 1e-9 deg and seven native-frame settings (CRVAL incl. RA wrap, near and at both poles, default and non-default LONPOLE / "
+          "LATPOLE), the world coordinates of every pixel being compared before and after every call at 1e-4 pixel.")
